@@ -625,7 +625,7 @@ Lemma set_XV_multi_reach isT V m :
   (hyp -> 0 <= V <= 1) -> (hyp -> comps_nn) -> (hyp -> 0 <= Fmol c) ->
   R (ms m) -> R (ms (om (set_XV_multi orc c isT V m))).
 Proof.
-  intros HV HC HF R0. unfold set_XV_multi, call_dew, call_bubble, set_other.
+  intros HV HC HF R0. unfold set_XV_multi, call_dew, call_bubble, call_dew_n, call_bubble_n, set_other.
   assert (HV' : hyp -> 0 <= adj_V c V <= 1) by (intros H; apply adj_V_01; auto).
   destruct isT; cbv zeta; red1.
   all: destruct (o_bubble orc (mk m) _) as [Xb yb] eqn:EB0.
@@ -859,7 +859,7 @@ Lemma set_TP_post T P m : wf (ms m) -> post hyp cf (ms m) (set_TP cf orc T P m).
 Proof.
   intros W. apply post_of_setup; auto.
   - intros s1 c E. destruct (setup_ok cf _ s1 c W E) as (_ & WC & _). pose proof WC as (L & _).
-    unfold set_TP. rewrite E. red1. unfold call_dew, call_bubble, solve_v.
+    unfold set_TP. rewrite E. red1. unfold call_dew, call_bubble, call_dew_n, call_bubble_n, solve_v.
     repeat brk; red1; rauto; try (apply tp_chemical_reach; rauto).
     all: destruct (o_dew orc (mk m) _) as [Pd xd]; red1; repeat brk; red1; rauto.
     all: destruct (o_bubble orc (S (mk m)) _) as [Pb yb]; red1; repeat brk; red1; rauto.
@@ -899,7 +899,7 @@ Lemma set_TH_post T H m : wf (ms m) -> post hyp cf (ms m) (set_TH cf orc T H m).
 Proof.
   intros W. apply post_of_setup; auto.
   - intros s1 c E. destruct (setup_ok cf _ s1 c W E) as (_ & WC & _). pose proof WC as (L & _).
-    unfold set_TH. rewrite E. red1. unfold call_dew, call_bubble, call_xH.
+    unfold set_TH. rewrite E. red1. unfold call_dew, call_bubble, call_dew_n, call_bubble_n, call_xH.
     repeat brk; red1; rauto; try (apply th_chemical_reach; rauto).
     all: destruct (o_dew orc (mk m) _) as [Pd xd]; red1; repeat brk; red1; rauto.
     all: destruct (o_bubble orc _ _) as [Pb yb]; red1; repeat brk; red1; rauto.
@@ -914,7 +914,7 @@ Proof.
   intros W. apply post_of_setup; auto.
   - intros s1 c E. destruct (setup_ok cf _ s1 c W E) as (_ & WC & _).
     pose proof WC as (L & ND & RG & W1 & _).
-    unfold set_PH. rewrite E. red1. unfold call_dew, call_bubble, call_xH, call_solveT.
+    unfold set_PH. rewrite E. red1. unfold call_dew, call_bubble, call_dew_n, call_bubble_n, call_xH, call_solveT.
     repeat brk; red1; rauto; try (apply ph_chemical_reach; rauto).
     all: destruct (o_bubble orc (mk m) _) as [Tb yb]; red1; repeat brk; red1; rauto.
     all: destruct (o_dew orc _ _) as [Td xd]; red1; repeat brk; red1; rauto.
@@ -965,7 +965,7 @@ Proof.
   - intros s1 c E. destruct (setup_ok cf _ s1 c W E) as (_ & WC & _). pose proof WC as (L & _).
     unfold set_xy. rewrite E. red1.
     destruct (negb (cN c =? 2)); red1; rauto.
-    unfold call_bubble, call_dew.
+    unfold call_bubble, call_dew, call_bubble_n, call_dew_n.
     assert (HF : hyp -> 0 <= Fmol c) by (intros H; destruct (HH H) as ((_ & NS) & N); eapply setup_Fmol_nn; eauto).
     destruct bubble; red1.
     + destruct (o_bubble orc (mk m) sv) as [a y] eqn:EB. red1.
